@@ -11,11 +11,11 @@ CASES_HEADER = "Require Import Nib.C16.Model Nib.C16.Spec Nib.C16.Check."
 CASE_TYPE = "case"
 MISMATCH_FN = "mismatch"
 VIOLATES_FN = "violates"
-RULE = ("case = world (sudo root, 0-3 sudo contracts, 0-4 authz grants saved through real MsgGrant txs) + 3-10 txs of 0-3 "
+RULE = ("case = world (sudo root, 0-4 sudo contracts, 0-4 authz grants saved through real MsgGrant txs) + 3-10 txs of 0-3 "
         "messages (MsgEditSudoers add/remove/unknown action/malformed contract, MsgChangeRoot, MsgEditOracleParams, "
         "MsgEditInflationParams valid/invalid, MsgToggleInflation, MsgSudoSetDenomMetadata valid/invalid, MsgExec trees up "
         "to depth 2) signed by root / listed / removed / former-root / unrelated accounts, each delivered through DeliverTx; "
-        "5 fixed opener histories first; non-trivial = after an accepted sudoers change, a later privileged message comes from "
+        "6 fixed opener histories first; non-trivial = after an accepted sudoers change, a later privileged message comes from "
         "an account whose permission differs from its initial one (stale-permission shape) or sits inside a MsgExec; "
         "distinct = distinct input")
 ASSUMPTIONS = [
